@@ -12,15 +12,35 @@ EXTENDS LSem, Json, IOUtils, TLCExt
 
 Cases == ndJsonDeserialize(IOEnv.TRACE_FILE)
 
-VARIABLE i
+VARIABLE pos
 
 Verdicts(c) ==
   LET den == DenDev(c.prog, Range(c.dev))
+      pm == PredMap(c.prog)
+      dev == Range(c.dev)
+      \* mutually recursive groups for which only the interval is prescribed
+      loose == {k \in 1..Len(c.prog.rec) : ~ExactComp(pm, c.prog.rec[k])}
+      upper == [k \in loose |-> UpperOf(c.prog, den, c.prog.rec[k], dev)]
+      open == UNION {Range(c.prog.rec[k].members) : k \in {j \in loose : ~upper[j].conv}}
   IN [k \in 1..Len(c.obs) |->
         LET o == c.obs[k]
             e == den[o.p]
-            good == IF o.ordered THEN SeqMatch(e, o.rows) ELSE BagMatch(e, o.rows)
-        IN [id |-> c.id, p |-> o.p, ok |-> good, exp |-> e]]
+            mine == {j \in loose : o.p \in Range(c.prog.rec[j].members)}
+            tainted == (DepsT(pm, {}, {o.p}) \ (IF mine = {} THEN {}
+                          ELSE Range(c.prog.rec[CHOOSE j \in mine : TRUE].members)))
+                       \cap open # {}
+            good ==
+              IF tainted THEN TRUE
+              ELSE IF mine # {}
+              THEN LET j == CHOOSE j \in mine : TRUE
+                   IN /\ \A i \in 1..Len(e) : \E r \in 1..Len(o.rows) : RowMatch(e[i], o.rows[r])
+                      /\ upper[j].conv =>
+                           \A r \in 1..Len(o.rows) :
+                              \E i \in 1..Len(upper[j].rows[o.p]) :
+                                 RowMatch(upper[j].rows[o.p][i], o.rows[r])
+              ELSE IF o.ordered THEN SeqMatch(e, o.rows) ELSE BagMatch(e, o.rows)
+        IN [id |-> c.id, p |-> o.p, ok |-> good, exp |-> e,
+            mode |-> IF tainted THEN "skipped" ELSE IF mine # {} THEN "interval" ELSE "exact"]]
 
 (* Metamorphic cases carry the program they were derived from (base: a     *)
 (* sequence of zero or one programs) and the correspondence of predicate    *)
@@ -56,18 +76,18 @@ SameAsBase(c) ==
 
 AllOk(vs) == \A k \in 1..Len(vs) : vs[k].ok
 
-Init == i = 1 /\ TLCSet(1, 0)
+Init == pos = 1 /\ TLCSet(1, 0)
 
 Next ==
-  /\ i <= Len(Cases)
-  /\ LET vs == Verdicts(Cases[i]) \o Theorem(Cases[i])
-         ws == SameAsBase(Cases[i])
+  /\ pos <= Len(Cases)
+  /\ LET vs == Verdicts(Cases[pos]) \o Theorem(Cases[pos])
+         ws == SameAsBase(Cases[pos])
      IN /\ \A k \in 1..Len(vs) : PrintT(<<"V", ToJson(vs[k])>>)
         /\ \A k \in 1..Len(ws) : PrintT(<<"V", ToJson(ws[k])>>)
         /\ IF AllOk(vs) THEN TRUE ELSE TLCSet(1, TLCGet(1) + 1)
-  /\ i' = i + 1
+  /\ pos' = pos + 1
 
-Spec == Init /\ [][Next]_i
+Spec == Init /\ [][Next]_pos
 
 Accepted == TLCGet(1) = 0 /\ TLCGet("stats").diameter - 1 = Len(Cases)
 =============================================================================
